@@ -77,7 +77,11 @@ class D(operator.Operator):
             bmatL = compute_bmatrix(self.tau, sm.k)
             bmatT = bmatL
         else:
-            shift = xp.asarray(self.k * sm.kvalue)
+            kvalue = sm.kvalue
+            if not common.isscalar(kvalue):
+                # per-axis kvalue: keep the coefficients of the state's wavenumber axes
+                kvalue = xp.asarray(kvalue)[:kdim]
+            shift = xp.asarray(self.k * kvalue)
             if common.isscalar(self.k) and kdim > 1:
                 # a scalar gradient is along the first axis (as a scalar shift)
                 shift = shift * xp.asarray([1] + [0] * (kdim - 1))
